@@ -288,13 +288,13 @@ func (x *FnCtx) verifyBody() {
 	_, resNames := x.paramBindings(fn.Signature, nil, fn, nil)
 	ec := &EvalCtx{x: x, fn: fn, pkg: pkgOf(fn), cur: st, old: entry, params: params, oldA: entry.heap.A}
 	for i, rq := range ctr.Requires {
-		g := ec.boolTerm(rq.E)
+		g, facts := ec.boolWithFacts(rq.E)
 		if ec.err != nil {
 			x.errs = append(x.errs, fmt.Sprintf("requires#%d: %v", i+1, ec.err))
 			ec.err = nil
 			continue
 		}
-		st.pc = tb.And(st.pc, g)
+		st.pc = tb.And(st.pc, g, facts)
 	}
 	entry.pc = st.pc
 	x.coverOb("cover/requires", st, tb.True())
@@ -315,12 +315,13 @@ func (x *FnCtx) verifyBody() {
 		}
 		pc := &EvalCtx{x: x, fn: fn, pkg: pkgOf(fn), cur: r.st, old: entry, params: params, results: rtvs, resNames: resNames, oldA: entry.heap.A}
 		for i, en := range ctr.Ensures {
-			g := pc.boolTerm(en.E)
+			g, facts := pc.boolWithFacts(en.E)
 			if pc.err != nil {
 				x.errs = append(x.errs, fmt.Sprintf("ensures#%d: %v", i+1, pc.err))
 				pc.err = nil
 				continue
 			}
+			r.st.pc = tb.And(r.st.pc, facts)
 			x.addOb("post", fmt.Sprintf("post#%d@ret%d", i+1, r.ord), r.st, g, false, en.Src)
 		}
 		// callee-side checks may mention the final values of locals
